@@ -23,10 +23,16 @@ EXPLANATION = (
     "keyword / omitted constructor arguments) the generated source text is parsed (never run) and evaluated by the same abstract "
     "interpreter, and the resulting pack list / constructor call / attribute state must equal the specification, and so must the "
     "interpreted VariablePayload methods. vp_compile is evaluated end to end (two definitions with an equal layout and different "
-    "hooks share one world, constructor defaults come from positional and keyword-only parameters); convert_to_payload is evaluated "
-    "for fresh, re-converted and derived dataclasses with ClassVar pseudo-fields; type_map is evaluated on every annotation kind and "
+    "hooks share one world, constructor defaults come from positional and keyword-only parameters; in part of the definitions the "
+    "fix_pack_/fix_unpack_ hooks are inherited from a base class of the definition instead of standing in its own __dict__); "
+    "convert_to_payload is evaluated for fresh, re-converted and derived dataclasses with ClassVar pseudo-fields, and for dataclasses with a "
+    "keyword-only field that is not last / a field(init=False) field, whose dataclass-generated __init__ does not list the fields in "
+    "definition order (names and format_list must follow dataclasses.fields()); type_map is evaluated on every annotation kind and "
     "only returns registered formats (including an explicit [payload class] list object used as the annotation). Where the evaluated code "
     "asks about the VALUE of a constructor default (truth value, None-ness) both answers are evaluated, because any object may be a default. "
+    "Iterators (generator expressions, map / filter / zip / enumerate, itertools and functools pipelines) are evaluated lazily, item by item, as CPython does; "
+    "small helper classes of the evaluated modules (callable objects, NamedTuple / dataclass records, Enum members) are instantiated and followed; what the "
+    "interpreter has no model of is undecided, never an exception of the analysed code. "
     "When a private builder no longer has its reviewed name / parameter list, its rule evaluates what vp_compile installs instead. Code outside the evaluated fragment is exit 2 (undecided), never a verdict. The family of "
     "definitions is finite (up to 5 formats / 19 names); equality of bytes for concrete instances is not decided."
 )
@@ -118,6 +124,24 @@ class Builtin:
     name: str
 
 
+class IdTok:
+    """id(x): an integer nobody computes with; equal / hashed by the identity of x (x is kept alive, as CPython requires for the
+    comparison of two ids to mean anything)."""
+
+    def __init__(self, key, ref) -> None:
+        self.key = key
+        self.ref = ref
+
+    def __eq__(self, other) -> bool:
+        return isinstance(other, IdTok) and other.key == self.key
+
+    def __hash__(self) -> int:
+        return hash(self.key)
+
+    def __repr__(self) -> str:
+        return f"id({self.ref!r})"
+
+
 @dataclass(frozen=True)
 class ObjInit:
     """object.__init__ reached through the named class."""
@@ -173,6 +197,8 @@ class Obj:
         self.cls = cls
         self.attrs = attrs if attrs is not None else {}
         self.label = label
+        self.fields = None          # item order of a NamedTuple helper instance
+        self.match_args = None      # field order of a NamedTuple / dataclass helper instance
 
     def __repr__(self) -> str:
         return f"<{self.label}>"
@@ -245,6 +271,19 @@ class IterObj:
         return f"<iterator at {self.pos} of {self.seq!r}>"
 
 
+class GenIter:
+    """A lazy one-shot iterator (generator expression, map, filter, zip, enumerate, reversed, itertools pipelines): items are
+    computed when the evaluated code consumes them, exactly as CPython does, so an item that is never requested is never
+    evaluated (and can neither raise nor make the rule undecided)."""
+
+    def __init__(self, gen, label: str = "generator") -> None:
+        self.gen = gen
+        self.label = label
+
+    def __repr__(self) -> str:
+        return f"<{self.label} object>"
+
+
 class CountIter:
     """itertools.count(start, step): an unbounded iterator."""
 
@@ -290,6 +329,13 @@ _FUNC_NAMES = {"len", "range", "enumerate", "zip", "reversed", "sorted", "repr",
                "classmethod", "map", "filter", "format", "id", "iter", "next", "dir", "delattr", "divmod"}
 _EXT_CLASSES = {"typing.TypeVar": "typevar", "typing_extensions.TypeVar": "typevar", "inspect.Parameter": "parameter",
                 "inspect.Signature": "signature", "dataclasses.Field": "field", "types.CodeType": "code"}
+# library objects modelled as records: attribute names that CERTAINLY do not exist on the real object (getattr defaults rely on them);
+# any other unmodelled attribute is undecided
+_LIBRARY_RECS = {"signature": (), "parameter": (), "field": (), "argspec": (), "code": (), "funccode": (), "function": ("__wrapped__",), "suppress": (), "template": (), "stringio": (),
+                 "nullcontext": (), "staticmethod": (), "classmethod": ()}
+_ALL_BUILTINS = frozenset(dir(__import__("builtins")))
+_OPERATOR_FNS = {"is", "is_not", "eq", "ne", "lt", "le", "gt", "ge", "contains", "not", "truth", "getitem", "add", "concat", "sub", "mul", "mod",
+                 "floordiv", "and", "or", "xor", "lshift", "rshift", "call"}
 _OPAQUE_DATA = ("field", "wire", "default", "arg")      # symbols that stand for arbitrary run-time values
 _IDENT = ("name", "fmt", "hook", "clsname", "modname")  # symbols that stand for distinct identities
 
@@ -453,6 +499,10 @@ class Interp:
             return Ext(mod + ("." + attr if attr else ""))
         if name in _TYPE_NAMES or name in _FUNC_NAMES or name in _EXC_NAMES:
             return Builtin(name)
+        if name in _ALL_BUILTINS:
+            if name in ("True", "False", "None", "NotImplemented", "Ellipsis", "__debug__"):
+                raise Und(f"builtin constant {name} used as a name")
+            return Builtin(name)          # a builtin this interpreter has no model of: calling it is undecided, not a NameError
         raise PyExc("NameError", name)
 
     def lookup(self, name, fr: Frame):
@@ -477,7 +527,32 @@ class Interp:
             return None
         if isinstance(v, App):
             return None
+        if isinstance(v, Obj) and isinstance(v.cls, RepoCls):
+            if self.tuple_of(v) is not None:
+                return bool(v.fields)
+            ev = self.enum_value(v)
+            if ev is not MISSING:
+                return self.truth(ev)
+            for special in ("__bool__", "__len__"):
+                raw = self.class_member(v.cls, special)
+                if isinstance(raw, Func):
+                    r = self.call(Bound(raw, v), [])
+                    return self.truth(r)
+            if self.class_kind(v.cls.ci) is None:
+                return None
+            return True
         return True
+
+    def enum_value(self, o):
+        """The value an IntEnum / StrEnum / IntFlag member compares and tests as; MISSING for everything else (plain Enum members
+        are only equal to themselves and always true)."""
+        if isinstance(o, Obj) and isinstance(o.cls, RepoCls) and self.class_kind(o.cls.ci) == "enum" and "name" in o.attrs:
+            base = o.cls.ci.base_names[0].rsplit(".", 1)[-1]
+            if base in ("IntEnum", "StrEnum", "IntFlag"):
+                if "value" not in o.attrs:
+                    raise Und(f"value of the enumeration member {o!r}")
+                return o.attrs["value"]
+        return MISSING
 
     def default_case(self, what: str, v: Sym):
         """Truth value / None-ness of an opaque constructor default: any Python object may be a default, so both answers occur
@@ -499,6 +574,20 @@ class Interp:
         """a == b : True / False / None (unknown)."""
         if a is b:
             return True
+        if isinstance(a, Obj) and self.tuple_of(a) is not None:
+            a = self.tuple_of(a)
+        if isinstance(b, Obj) and self.tuple_of(b) is not None:
+            b = self.tuple_of(b)
+        if self.enum_value(a) is not MISSING:
+            a = self.enum_value(a)
+        if self.enum_value(b) is not MISSING:
+            b = self.enum_value(b)
+        for x in (a, b):
+            if isinstance(x, Obj) and isinstance(x.cls, RepoCls) and "__eq__" in {k for c in x.cls.ci.mro() for k in c.methods}:
+                raise Und(f"equality of {x!r} (custom __eq__)")
+        if isinstance(a, Obj) and isinstance(b, Obj) and a.cls == b.cls and isinstance(a.cls, RepoCls) and self.class_kind(a.cls.ci) == "dataclass" \
+                and "__eq__" not in a.cls.ci.methods and getattr(a, "match_args", None) is not None:
+            return self.veq([a.attrs.get(n) for n in a.match_args], [b.attrs.get(n) for n in b.match_args])
         if (a is None or b is None) and isinstance(b if a is None else a, Sym) and (b if a is None else a).kind == "default":
             return self.default_case("none", b if a is None else a)
         if is_concrete(a) and is_concrete(b):
@@ -630,11 +719,25 @@ class Interp:
                 if t is None:
                     res = None
             return res
+        if isinstance(container, (IterObj, GenIter)):
+            for x in self.iterate(container):     # `in` on an iterator consumes it up to the first equal item
+                t = self.veq(x, item)
+                if t is True:
+                    return True
+                if t is None:
+                    raise Und("membership test on an iterator depends on a run-time value")
+            return False
         if isinstance(container, (SStr, Sym, App)):
             return None
-        raise PyExc("TypeError", f"argument of type {type(container).__name__} is not iterable")
+        if isinstance(container, Obj) and self.tuple_of(container) is not None:
+            return self.contains(self.tuple_of(container), item)
+        if not self.surely_not_iterable(container):
+            raise Und(f"membership test on {container!r}")
+        raise PyExc("TypeError", f"argument of type {self.type_name(container)} is not iterable")
 
     def iterate(self, v):
+        if isinstance(v, Obj) and self.tuple_of(v) is not None:
+            v = self.tuple_of(v)
         if isinstance(v, list):
             i = 0
             while i < len(v):
@@ -647,6 +750,13 @@ class Interp:
                 v.pos += 1
                 yield x
             return
+        if isinstance(v, GenIter):
+            while True:
+                try:
+                    x = next(v.gen)
+                except StopIteration:
+                    return
+                yield x
         if isinstance(v, CountIter):
             for _ in range(20000):
                 x = v.cur
@@ -667,9 +777,29 @@ class Interp:
                 yield from sorted(v, key=repr)
                 return
             raise Und("iteration order of a set of symbols")
-        if isinstance(v, (Sym, SStr, App)):
+        if isinstance(v, (Sym, SStr, App)) or not self.surely_not_iterable(v):
             raise Und(f"iteration over the opaque value {v!r}")
-        raise PyExc("TypeError", f"{type(v).__name__} object is not iterable")
+        raise PyExc("TypeError", f"{self.type_name(v)} object is not iterable")
+
+    def surely_not_iterable(self, v) -> bool:
+        """CPython raises TypeError when this value is iterated (None, numbers, functions, builtin type objects, instances of the
+        abstract payload classes): everything else this interpreter has no iteration model for is undecided."""
+        if v is None or isinstance(v, (bool, int, float, Func, Bound, ClsObj, ObjInit, HookDef, Partial)):
+            return True
+        if isinstance(v, Builtin):
+            return True
+        if isinstance(v, Obj):
+            return isinstance(v.cls, ClsObj) or v.cls is None
+        return False
+
+    def iter_of(self, v):
+        """iter(v) as a Python generator: whether v is iterable at all is decided NOW (CPython raises TypeError when the pipeline
+        is built), its items are produced when they are consumed."""
+        if isinstance(v, (list, tuple, range, dict, str, set, frozenset, IterObj, GenIter, CountIter)) or self.tuple_of(v) is not None:
+            return self.iterate(v)
+        if isinstance(v, (Sym, SStr, App)) or not self.surely_not_iterable(v):
+            raise Und(f"iteration over the opaque value {v!r}")
+        raise PyExc("TypeError", f"{self.type_name(v) or type(v).__name__} object is not iterable")
 
     # ------------------------------------------------------------------------------------------ classes and attributes
     def linearize(self, cls) -> list:
@@ -696,8 +826,10 @@ class Interp:
             return False
         if isinstance(c, Builtin) and c.name in _EXC_NAMES:
             return isinstance(t, Builtin) and (t.name == c.name or t.name in ("Exception", "BaseException", "object"))
-        if isinstance(c, (Sym, App)):
-            raise Und(f"issubclass of the opaque value {c!r}")
+        if isinstance(c, (Sym, App, Ext)) or (isinstance(c, (ClsObj, RepoCls, Builtin)) and not isinstance(t, (ClsObj, RepoCls, Builtin, Ext))):
+            raise Und(f"issubclass({c!r}, {t!r})")
+        if isinstance(c, Builtin):
+            raise Und(f"issubclass of the builtin {c.name}")
         raise PyExc("TypeError", "issubclass() arg 1 must be a class")
 
     def type_name(self, v):
@@ -724,6 +856,10 @@ class Interp:
             return v.cls
         if isinstance(v, ExcVal):
             return "exc:" + v.kind
+        if isinstance(v, (IterObj, GenIter, CountIter)):
+            return "iterator"
+        if isinstance(v, Partial):
+            return "function"
         return None
 
     def is_instance(self, v, t) -> bool:
@@ -733,7 +869,7 @@ class Interp:
         if tn is None:
             raise Und(f"type of the opaque value {v!r} is not known")
         if isinstance(t, Builtin):
-            if t.name == "object":
+            if t.name == "object" or (t.name == "tuple" and isinstance(v, Obj) and self.tuple_of(v) is not None):
                 return True
             if isinstance(tn, str):
                 if tn == t.name or (tn, t.name) == ("bool", "int"):
@@ -785,6 +921,8 @@ class Interp:
                 ci = c.ci
                 if key in ci.methods:
                     return self.func_of(ci.methods[key])
+                if key in ci.attrs and not key.startswith("_") and self.class_kind(ci) == "enum":
+                    return self.enum_member(c, key)
                 if key in ci.attrs:
                     k = id(ci.attrs[key])
                     if k not in self.w.consts:
@@ -799,6 +937,8 @@ class Interp:
                 return raw
             if "classmethod" in decs:
                 return Bound(raw, cls)
+            if inst is not None and any(d in ("property", "functools.cached_property", "cached_property") for d in decs):
+                return self.call_plain(raw, [inst])
             return Bound(raw, inst) if inst is not None else raw
         if isinstance(raw, HookDef):
             return Sym("hook", (raw.prefix, raw.index, "inst" if inst is not None else "cls"), "callable")
@@ -832,7 +972,19 @@ class Interp:
                     return self._descr(raw, o, o.cls)
                 if key == "__init__":
                     return ObjInit(repr(o.cls))
-            raise PyExc("AttributeError", f"{o!r} has no attribute {key!r}")
+            if isinstance(o.cls, RepoCls):
+                if o.fields is not None:
+                    if key == "_fields":
+                        return tuple(o.fields)
+                    if key in ("_asdict", "_replace", "index", "count"):
+                        return PyMethod(o, key)
+                    if isinstance(key, str) and (hasattr(tuple, key) or key in ("_make", "_field_defaults")):
+                        raise Und(f"attribute {key!r} of a NamedTuple instance (not modelled)")
+                elif o.match_args is not None and key in ("__dataclass_fields__", "__dataclass_params__", "__match_args__"):
+                    if key == "__match_args__":
+                        return tuple(o.match_args)
+                    raise Und(f"attribute {key!r} of a dataclass instance (not modelled)")
+            raise self.no_attr(o, key, f"{o!r} has no attribute {key!r}")
         if isinstance(o, (ClsObj, RepoCls)):
             raw = self.class_member(o, key)
             if raw is not MISSING:
@@ -855,15 +1007,22 @@ class Interp:
                 return tuple(o.bases) if isinstance(o, ClsObj) else tuple(RepoCls(b) for b in o.ci.bases)
             if key in ("__init__", "__new__"):
                 return ObjInit(repr(o))
-            raise PyExc("AttributeError", f"type object {o!r} has no attribute {key!r}")
+            raise self.no_attr(o, key, f"type object {o!r} has no attribute {key!r}", proto=type)
         if isinstance(o, Rec):
             if o.kind == "super":
                 return self._super_attr(o, key)
+            if o.kind == "template" and key in ("substitute", "safe_substitute"):
+                return PyMethod(o, key)
+            if o.kind == "stringio" and key in ("write", "writelines", "getvalue", "close"):
+                return PyMethod(o, key)
             if key in o.fields:
                 return o.fields[key]
             if o.kind == "function" and key == "__get__":
                 raise Und("descriptor protocol")
-            raise PyExc("AttributeError", f"{o!r} has no attribute {key!r}")
+            if o.kind in _LIBRARY_RECS and not (isinstance(key, str) and key in _LIBRARY_RECS[o.kind]):
+                # a library object of which only the attributes in use are modelled
+                raise Und(f"attribute {key!r} of a {o.kind} object (not modelled)")
+            raise self.no_attr(o, key, f"{o!r} has no attribute {key!r}")
         if isinstance(o, Ext):
             if not isinstance(key, str):
                 raise Und(f"attribute {key!r} of {o.name}")
@@ -885,11 +1044,14 @@ class Interp:
                 return PyMethod(o, key)
             if key == "__mro__" and o.name in _TYPE_NAMES:
                 return (o, Builtin("object"))
+            real = getattr(__import__("builtins"), o.name, None)
+            if not isinstance(key, str) or real is None or hasattr(real, key):
+                raise Und(f"attribute {key!r} of the builtin {o.name} (not modelled)")
             raise PyExc("AttributeError", f"{o.name} has no attribute {key!r}")
         if isinstance(o, ExcVal):
             if key == "args":
                 return o.args
-            raise PyExc("AttributeError", key)
+            raise Und(f"attribute {key!r} of an exception object")
         if isinstance(o, Constructed):
             raise Und(f"attribute {key!r} of a constructed payload")
         tn = self.type_name(o)
@@ -900,8 +1062,18 @@ class Interp:
                 return PyMethod(o, key)
             raise PyExc("AttributeError", f"{tn} object has no attribute {key!r}")
         if o is None:
-            raise PyExc("AttributeError", f"NoneType object has no attribute {key!r}")
+            raise self.no_attr(o, key, f"NoneType object has no attribute {key!r}")
+        if isinstance(o, (IterObj, GenIter, CountIter)) and key in ("__next__", "__iter__"):
+            return PyMethod(o, key)
         raise Und(f"attribute {key!r} of the opaque value {o!r}")
+
+    @staticmethod
+    def no_attr(o, key, msg: str, proto=object):
+        """AttributeError - unless it is a special attribute every object (every class, for proto=type) has and this interpreter
+        simply has no model of: that is undecided, never a verdict."""
+        if isinstance(key, str) and key.startswith("__") and key.endswith("__") and hasattr(proto, key):
+            return Und(f"special attribute {key!r} of {o!r} (not modelled)")
+        return PyExc("AttributeError", msg)
 
     def _super_attr(self, sup: Rec, key):
         if key == "__class__":
@@ -978,17 +1150,131 @@ class Interp:
         if isinstance(f, ObjInit):
             self.w.events.append(("base-init", f.owner, args[0] if args else None))
             return None
+        if isinstance(f, HookDef):
+            # the plain function found in a class __dict__: calling it with an explicit receiver is the bound call
+            if not args:
+                raise PyExc("TypeError", f"{f.prefix}n{f.index}() missing the receiver argument")
+            how = "inst" if isinstance(args[0], Obj) else "cls"
+            return self.call(Sym("hook", (f.prefix, f.index, how), "callable"), list(args[1:]), kw)
         if isinstance(f, Sym) and f.typ == "callable":
             return App(f, tuple(_freeze(a) for a in args), tuple(sorted(((k, _freeze(v)) for k, v in kw.items()), key=repr)))
         if isinstance(f, RepoCls):
             if any(n.endswith(("Error", "Exception")) for n in [f.ci.name, *f.ci.all_base_names()]):
                 return ExcVal(f.ci.name, tuple(args))
-            raise Und(f"construction of the library class {f.ci.name}")
+            return self.instantiate(f, list(args), kw)
+        if isinstance(f, Obj) and isinstance(f.cls, RepoCls):
+            raw = self.class_member(f.cls, "__call__")
+            if isinstance(raw, Func):
+                return self.call(self._descr(raw, f, f.cls), args, kw)
+            raise PyExc("TypeError", f"{f!r} is not callable")
         if isinstance(f, Rec) and f.kind == "function":
             raise PyExc("TypeError", f"the definition's own {f.fields['name']} is still in place (not replaced by generated code)")
         if isinstance(f, (App, Sym)):
             raise Und(f"call of the opaque value {f!r}")
-        raise PyExc("TypeError", f"{f!r} is not callable")
+        if f is None or is_concrete(f) or isinstance(f, (list, tuple, dict, set, frozenset, SStr, IterObj, GenIter, CountIter, Constructed, IdTok)) \
+                or (isinstance(f, Obj) and (f.cls is None or isinstance(f.cls, ClsObj))):
+            raise PyExc("TypeError", f"{f!r} is not callable")
+        raise Und(f"call of {f!r} (not modelled)")
+
+    # -------------------------------------------------------------------------- small record / callable classes of the library
+    def class_kind(self, ci: ClassInfo):
+        """'plain' | 'dataclass' | 'namedtuple' | 'enum' for a small self-contained helper class (no library base class, no
+        metaclass, at most a dataclass decorator), else None: only those are instantiated by this interpreter."""
+        node = ci.node
+        if ci.bases or node.keywords:
+            return None
+        decs = [(chain(d.func) if isinstance(d, ast.Call) else chain(d)) or "?" for d in node.decorator_list]
+        bases = [b.rsplit(".", 1)[-1] for b in ci.base_names]
+        if any(d.rsplit(".", 1)[-1] not in ("dataclass", "final", "unique") for d in decs):
+            return None
+        is_dc = any(d.rsplit(".", 1)[-1] == "dataclass" for d in decs)
+        if not bases or bases == ["object"]:
+            return "dataclass" if is_dc else "plain"
+        if is_dc:
+            return None
+        if bases == ["NamedTuple"]:
+            return "namedtuple"
+        if len(bases) == 1 and bases[0] in ("Enum", "IntEnum", "StrEnum", "Flag", "IntFlag"):
+            return "enum"
+        return None
+
+    def record_fields(self, ci: ClassInfo) -> list:
+        """[(name, default expr | None)] of a NamedTuple / dataclass helper class, in definition order."""
+        out = []
+        for st in ci.node.body:
+            if isinstance(st, ast.AnnAssign) and isinstance(st.target, ast.Name):
+                if "ClassVar" in norm(st.annotation):
+                    continue
+                out.append((st.target.id, st.value))
+        return out
+
+    def instantiate(self, f: RepoCls, args: list, kw: dict):
+        ci = f.ci
+        kind = self.class_kind(ci)
+        if kind is None:
+            raise Und(f"construction of the library class {ci.name}")
+        if kind == "enum":
+            raise Und(f"lookup of a member of the enumeration {ci.name} by value")
+        o = Obj(f, {}, f"{ci.name} object")
+        if kind == "plain" or (kind == "dataclass" and "__init__" in ci.methods):
+            init = ci.methods.get("__init__")
+            if init is None:
+                if args or kw:
+                    raise PyExc("TypeError", f"{ci.name}() takes no arguments")
+                return o
+            self.call(Bound(self.func_of(init), o), args, kw)
+            return o
+        if "__new__" in ci.methods or (kind == "namedtuple" and "__init__" in ci.methods):
+            raise Und(f"construction of {ci.name} (custom __new__)")
+        fields = self.record_fields(ci)
+        names = [n for n, _ in fields]
+        if len(args) > len(names):
+            raise PyExc("TypeError", f"{ci.name}() takes {len(names)} positional arguments but {len(args)} were given")
+        vals = dict(zip(names, args))
+        for k, v in kw.items():
+            if k not in names or k in vals:
+                raise PyExc("TypeError", f"{ci.name}() got an unexpected or repeated argument {k!r}")
+            vals[k] = v
+        mfr = self.module_frame(ci.module)
+        for n, d in fields:
+            if n not in vals:
+                if d is None:
+                    raise PyExc("TypeError", f"{ci.name}() missing required argument {n!r}")
+                if isinstance(d, ast.Call) and (chain(d.func) or "").rsplit(".", 1)[-1] == "field":
+                    fkw = {k.arg: k.value for k in d.keywords}
+                    if "default" in fkw:
+                        vals[n] = self.ev(fkw["default"], mfr)
+                    elif "default_factory" in fkw:
+                        vals[n] = self.call(self.ev(fkw["default_factory"], mfr), [])
+                    else:
+                        raise PyExc("TypeError", f"{ci.name}() missing required argument {n!r}")
+                else:
+                    vals[n] = self.ev(d, mfr)
+        for n in names:
+            o.attrs[n] = vals[n]
+        o.fields = tuple(names) if kind == "namedtuple" else None
+        o.match_args = tuple(names)
+        post = ci.methods.get("__post_init__") if kind == "dataclass" else None
+        if post is not None:
+            self.call(Bound(self.func_of(post), o), [])
+        return o
+
+    def enum_member(self, f: RepoCls, key: str):
+        k = ("enum", id(f.ci.node), key)
+        if k not in self.w.consts:
+            o = Obj(f, {"name": key, "_name_": key}, f"{f.ci.name}.{key}")
+            try:
+                o.attrs["value"] = o.attrs["_value_"] = self.ev(f.ci.attrs[key], self.module_frame(f.ci.module))
+            except Und:
+                pass        # auto() and the like: the member exists, its value is not modelled
+            self.w.consts[k] = o
+        return self.w.consts[k]
+
+    def tuple_of(self, o):
+        """The items of a NamedTuple helper instance, else None."""
+        if isinstance(o, Obj) and getattr(o, "fields", None):
+            return tuple(o.attrs[n] for n in o.fields)
+        return None
 
     def bind(self, f: Func, args: list, kw: dict) -> dict:  # noqa: C901
         a = f.node.args
@@ -1029,6 +1315,23 @@ class Interp:
                 loc[n] = self.ev(d, dfr)
         return loc
 
+    def call_plain(self, f: Func, args: list):
+        """Evaluate the body of a property getter."""
+        loc = self.bind(f, args, {})
+        fr = Frame(f, ChainMap(loc))
+        self.depth += 1
+        if self.depth > 40:
+            raise Und("recursion depth")
+        try:
+            if any(isinstance(n, (ast.Yield, ast.YieldFrom)) for n in walk_no_nested(f.node) if n is not f.node):
+                raise Und(f"generator property {f.name}")
+            self.block(f.node.body, fr)
+        except _Return as r:
+            return r.value
+        finally:
+            self.depth -= 1
+        return None
+
     def call_func(self, f: Func, args: list, kw: dict):
         stub = self.w.stubs.get(id(f.node))
         if stub is not None:
@@ -1047,16 +1350,35 @@ class Interp:
             raise Und("recursion depth")
         is_gen = not isinstance(f.node, ast.Lambda) and any(isinstance(n, (ast.Yield, ast.YieldFrom)) for n in walk_no_nested(f.node) if n is not f.node)
         if is_gen:
-            fr.yields = []       # evaluated eagerly: sound as long as the generator does not read state its consumer writes between two items
+            # the body is evaluated now and its items are replayed on demand: sound as long as the generator does not read state its
+            # consumer writes between two items.  Whatever ends the body abnormally (an exception of the analysed code, an undecided
+            # construct) is delivered where CPython delivers it: when the consumer asks for the item after the last one produced.
+            fr.yields = []
+            err = None
+            try:
+                self.block(f.node.body, fr)
+            except _Return:
+                pass
+            except (PyExc, Und) as e:
+                err = e
+            finally:
+                self.depth -= 1
+            items = fr.yields
+
+            def replay():
+                yield from items
+                if err is not None:
+                    raise err
+            return GenIter(replay(), "generator")
         try:
             if isinstance(f.node, ast.Lambda):
                 return self.ev(f.node.body, fr)
             self.block(f.node.body, fr)
         except _Return as r:
-            return IterObj(fr.yields) if is_gen else r.value
+            return r.value
         finally:
             self.depth -= 1
-        return IterObj(fr.yields) if is_gen else None
+        return None
 
     # ------------------------------------------------------------------------------------------ builtins
     def call_builtin(self, name: str, a: list, kw: dict):  # noqa: C901, PLR0911, PLR0912, PLR0915
@@ -1064,6 +1386,8 @@ class Interp:
             return ExcVal(name, tuple(a))
         if name == "len":
             v = a[0]
+            if isinstance(v, Obj) and self.tuple_of(v) is not None:
+                return len(v.fields)
             if isinstance(v, (list, tuple, dict, str, set, frozenset, range, bytes)):
                 return len(v)
             raise Und(f"len of {v!r}")
@@ -1073,27 +1397,44 @@ class Interp:
             raise Und("range over a symbolic bound")
         if name == "enumerate":
             start = kw.get("start", a[1] if len(a) > 1 else 0)
-            return [(start + i, x) for i, x in enumerate(self.iterate(a[0]))]
+            if not (isinstance(start, int) and not isinstance(start, bool)):
+                raise Und("enumerate() with a symbolic start")
+            src = self.iter_of(a[0])
+
+            def enum_gen():
+                i = start
+                for x in src:
+                    yield (i, x)
+                    i += 1
+            return GenIter(enum_gen(), "enumerate")
         if name == "zip":
-            gens = [self.iterate(x) for x in a]
-            rows: list = []
-            while gens:
-                row = []
-                for g in gens:
-                    try:
-                        row.append(next(g))
-                    except StopIteration:
-                        if kw.get("strict") and (row or any(True for _ in g)):
-                            raise PyExc("ValueError", "zip() arguments have different lengths") from None
-                        return rows
-                rows.append(tuple(row))
-            return rows
+            gens = [self.iter_of(x) for x in a]
+            strict = bool(kw.get("strict"))
+
+            def zip_gen():
+                while gens:
+                    row = []
+                    for g in gens:
+                        x = next(g, MISSING)
+                        if x is MISSING:
+                            if strict and (row or any(next(h, MISSING) is not MISSING for h in gens[gens.index(g) + 1:])):
+                                raise PyExc("ValueError", "zip() arguments have different lengths")
+                            return
+                        row.append(x)
+                    yield tuple(row)
+            return GenIter(zip_gen(), "zip")
         if name == "iter":
             if len(a) != 1:
                 raise Und("iter() with a sentinel")
-            return a[0] if isinstance(a[0], (IterObj, CountIter)) else IterObj(a[0] if isinstance(a[0], list) else list(self.iterate(a[0])))
+            if isinstance(a[0], (IterObj, CountIter, GenIter)):
+                return a[0]
+            if isinstance(a[0], list):
+                return IterObj(a[0])
+            return GenIter(self.iter_of(a[0]), "iterator")
         if name == "next":
-            if not isinstance(a[0], (IterObj, CountIter)):
+            if not isinstance(a[0], (IterObj, CountIter, GenIter)):
+                if self.type_name(a[0]) is None:
+                    raise Und(f"next() of the opaque value {a[0]!r}")
                 raise PyExc("TypeError", f"{a[0]!r} is not an iterator")
             for x in self.iterate(a[0]):
                 return x
@@ -1101,7 +1442,9 @@ class Interp:
                 return a[1]
             raise PyExc("StopIteration")
         if name == "reversed":
-            return list(reversed(list(self.iterate(a[0]))))
+            if isinstance(a[0], (IterObj, CountIter, GenIter, set, frozenset)):
+                raise PyExc("TypeError", "argument to reversed() must be a sequence")
+            return IterObj(list(reversed(list(self.iterate(a[0])))))
         if name == "sorted":
             if kw.get("key") is not None:
                 raise Und("sorted with a key function")
@@ -1213,26 +1556,57 @@ class Interp:
             if a or kw:
                 raise PyExc("TypeError", "object() takes no arguments")
             return Obj(None, {}, "object()")      # a fresh sentinel: identical only to itself
+        if name == "id" and len(a) == 1:
+            v = a[0]
+            if isinstance(v, (Sym, App, SStr)) or is_concrete(v):
+                raise Und(f"id() of the run-time value {v!r}")
+            # identity token: equal exactly when `same` holds (library objects / builtins are value-equal iff identical here)
+            return IdTok(v if isinstance(v, (Builtin, Ext, RepoCls, ObjInit)) else ("object", id(v)), v)
         if name == "vars":
             return self.getattr_(a[0], "__dict__")
         if name == "dir":
             raise Und("dir()")
         if name == "print":
+            out = kw.get("file")
+            if out is None:
+                return None
+            if not (isinstance(out, Rec) and out.kind == "stringio"):
+                raise Und("print() into an opaque file")
+            sep, end = kw.get("sep", " "), kw.get("end", "\n")
+            sep, end = (" " if sep is None else sep), ("\n" if end is None else end)
+            parts: list = []
+            for i, x in enumerate(a):
+                if i:
+                    parts.append(sep)
+                parts.append(to_text(x, "s"))
+            parts.append(end)
+            out.fields["parts"].append(mkstr(parts))
             return None
         if name in ("staticmethod", "classmethod"):
             return Rec(name, func=a[0])
-        if name in ("map", "filter"):
-            items = list(self.iterate(a[1]))
-            if name == "map":
-                return [self.call(a[0], [x]) for x in items]
-            out = []
-            for x in items:
-                t = self.truth(self.call(a[0], [x]) if a[0] is not None else x)
-                if t is None:
-                    raise Und("filter() over opaque values")
-                if t:
-                    out.append(x)
-            return out
+        if name == "map":
+            if len(a) < 2:
+                raise PyExc("TypeError", "map() must have at least two arguments")
+            fn, srcs = a[0], [self.iter_of(x) for x in a[1:]]
+
+            def map_gen():
+                while True:
+                    row = [next(g, MISSING) for g in srcs]
+                    if any(x is MISSING for x in row):
+                        return
+                    yield self.call(fn, row)
+            return GenIter(map_gen(), "map")
+        if name == "filter":
+            pred, src = a[0], self.iter_of(a[1])
+
+            def filter_gen():
+                for x in src:
+                    t = self.truth(self.call(pred, [x]) if pred is not None else x)
+                    if t is None:
+                        raise Und("filter() over opaque values")
+                    if t:
+                        yield x
+            return GenIter(filter_gen(), "filter")
         if name == "compile":
             if not is_strlike(a[0]):
                 raise PyExc("TypeError", "compile() arg 1 must be a string")
@@ -1319,6 +1693,8 @@ class Interp:
                 return tuple(a[0].meta["fields"])
             if isinstance(a[0], Obj) and isinstance(a[0].cls, ClsObj) and "fields" in a[0].cls.meta:
                 return tuple(a[0].cls.meta["fields"])
+            if isinstance(a[0], (RepoCls, Sym, App, Ext)) or (isinstance(a[0], Obj) and isinstance(a[0].cls, RepoCls)):
+                raise Und(f"dataclasses.fields of {a[0]!r}")
             raise PyExc("TypeError", "must be called with a dataclass type or instance")
         if name == "dataclasses.is_dataclass":
             c = a[0].cls if isinstance(a[0], Obj) else a[0]
@@ -1340,24 +1716,159 @@ class Interp:
             return isinstance(a[0], Func)
         if name in ("inspect.isclass",):
             return isinstance(a[0], (ClsObj, RepoCls)) or (isinstance(a[0], Builtin) and a[0].name in _TYPE_NAMES)
+        if name in ("dataclasses.asdict", "dataclasses.astuple", "dataclasses.replace") and a and isinstance(a[0], Obj) \
+                and isinstance(a[0].cls, RepoCls) and a[0].fields is None and a[0].match_args is not None:
+            o = a[0]
+            vals = [o.attrs[n] for n in o.match_args]
+
+            def inner(v, as_dict: bool):
+                # dataclasses._asdict_inner: records and builtin containers are rebuilt, everything else is copy.deepcopy'd (classes,
+                # strings, numbers and the opaque symbols of this interpreter are their own deep copies as far as equality goes)
+                if isinstance(v, Obj):
+                    if isinstance(v.cls, RepoCls) and v.fields is None and v.match_args is not None:
+                        sub = [inner(v.attrs[n], as_dict) for n in v.match_args]
+                        return dict(zip(v.match_args, sub)) if as_dict else tuple(sub)
+                    raise Und(f"dataclasses.{short} over the object {v!r}")
+                if isinstance(v, list):
+                    return [inner(x, as_dict) for x in v]
+                if isinstance(v, tuple):
+                    return tuple(inner(x, as_dict) for x in v)
+                if isinstance(v, dict):
+                    return {inner(k, as_dict): inner(x, as_dict) for k, x in v.items()}
+                if isinstance(v, (set, frozenset, IterObj, GenIter, CountIter, Rec)):
+                    raise Und(f"dataclasses.{short} over {v!r}")
+                return v
+            if short == "asdict" and len(a) == 1 and not kw:
+                return dict(zip(o.match_args, [inner(v, True) for v in vals]))
+            if short == "astuple" and len(a) == 1 and not kw:
+                return tuple(inner(v, False) for v in vals)
+            if short == "replace" and len(a) == 1:
+                return self.instantiate(o.cls, [], {**dict(zip(o.match_args, vals)), **kw})
+            raise Und(f"dataclasses.{short} with options")
+        if name == "string.Template" and len(a) == 1:
+            return Rec("template", template=a[0])
+        if name == "io.StringIO":
+            if a and a[0] != "":
+                raise Und("io.StringIO with initial contents")
+            return Rec("stringio", parts=[])
+        if name == "contextlib.suppress":
+            kinds = []
+            for x in a:
+                k = x.name if isinstance(x, Builtin) and x.name in _EXC_NAMES else x.ci.name if isinstance(x, RepoCls) else None
+                if k is None:
+                    raise Und(f"contextlib.suppress of {x!r}")
+                kinds.append(k)
+            return Rec("suppress", kinds=kinds)
+        if name == "contextlib.nullcontext":
+            return Rec("nullcontext", value=a[0] if a else kw.get("enter_result"))
         if name == "itertools.islice":
             lo, hi, step = (0, a[1], 1) if len(a) == 2 else (a[1] or 0, a[2], (a[3] if len(a) > 3 and a[3] is not None else 1))
             if not all(x is None or (isinstance(x, int) and not isinstance(x, bool)) for x in (lo, hi, step)):
                 raise Und("islice with symbolic bounds")
-            out, g, i = [], self.iterate(a[0]), 0
-            while hi is None or i < hi:
-                try:
-                    x = next(g)
-                except StopIteration:
-                    break
-                if i >= lo and (i - lo) % step == 0:
-                    out.append(x)
-                i += 1
-            return IterObj(out)
+            if lo < 0 or step < 1 or (hi is not None and hi < 0):
+                raise PyExc("ValueError", "islice() bounds must be non-negative")
+            src = self.iter_of(a[0])
+
+            def islice_gen():
+                i = 0
+                while hi is None or i < hi:
+                    x = next(src, MISSING)
+                    if x is MISSING:
+                        return
+                    if i >= lo and (i - lo) % step == 0:
+                        yield x
+                    i += 1
+            return GenIter(islice_gen(), "islice")
         if name == "itertools.chain":
-            return IterObj([x for it in a for x in self.iterate(it)])
+            srcs = [self.iter_of(x) for x in a]
+            return GenIter((x for g in srcs for x in g), "chain")
         if name == "itertools.chain.from_iterable":
-            return IterObj([x for it in self.iterate(a[0]) for x in self.iterate(it)])
+            outer = self.iter_of(a[0])
+            return GenIter((x for it in outer for x in self.iter_of(it)), "chain")
+        if name in ("itertools.takewhile", "itertools.dropwhile", "itertools.filterfalse"):
+            pred, src = a[0], self.iter_of(a[1])
+
+            def holds(x) -> bool:
+                t = self.truth(self.call(pred, [x]) if pred is not None else x)
+                if t is None:
+                    raise Und(f"{short}() over opaque values")
+                return t
+
+            def while_gen():
+                if short == "filterfalse":
+                    for x in src:
+                        if not holds(x):
+                            yield x
+                    return
+                for x in src:
+                    if short == "takewhile":
+                        if not holds(x):
+                            return
+                        yield x
+                    elif not holds(x):
+                        yield x
+                        yield from src
+                        return
+            return GenIter(while_gen(), short)
+        if name == "itertools.accumulate":
+            fn = a[1] if len(a) > 1 else kw.get("func")
+            init = kw.get("initial")
+            src = self.iter_of(a[0])
+
+            def acc_gen():
+                total = init
+                started = init is not None
+                if started:
+                    yield total
+                for x in src:
+                    if not started:
+                        total, started = x, True
+                    elif fn is None:
+                        total = self.binop(ast.Add(), total, x, ast.Constant(value="accumulate"))
+                    else:
+                        total = self.call(fn, [total, x])
+                    yield total
+            return GenIter(acc_gen(), "accumulate")
+        if name == "itertools.compress":
+            data, sel = self.iter_of(a[0]), self.iter_of(a[1])
+
+            def compress_gen():
+                for x, c in zip(data, sel):
+                    t = self.truth(c)
+                    if t is None:
+                        raise Und("compress() over opaque selectors")
+                    if t:
+                        yield x
+            return GenIter(compress_gen(), "compress")
+        if name == "itertools.pairwise":
+            src = self.iter_of(a[0])
+
+            def pair_gen():
+                prev = next(src, MISSING)
+                if prev is MISSING:
+                    return
+                for x in src:
+                    yield (prev, x)
+                    prev = x
+            return GenIter(pair_gen(), "pairwise")
+        if name == "itertools.product" and not kw:
+            import itertools as _it
+            return IterObj(list(_it.product(*[list(self.iterate(x)) for x in a])))
+        if name == "functools.reduce":
+            src = self.iter_of(a[1])
+            if len(a) > 2:
+                total = a[2]
+            else:
+                total = next(src, MISSING)
+                if total is MISSING:
+                    raise PyExc("TypeError", "reduce() of empty iterable with no initial value")
+            for x in src:
+                total = self.call(a[0], [total, x])
+            return total
+        if name == "operator.methodcaller" and a and isinstance(a[0], str):
+            return Partial(PyMethod(self, "methodcaller"), (a[0], tuple(a[1:]), tuple(kw.items())))
+        if name.startswith("operator.") and short.strip("_") in _OPERATOR_FNS and not kw:
+            return self.operator_fn(short.strip("_"), a)
         if name == "types.MethodType":
             return Bound(a[0], a[1])
         if name == "itertools.count":
@@ -1371,7 +1882,8 @@ class Interp:
                 raise Und("itertools.repeat without a concrete bound")
             return IterObj([a[0]] * max(times, 0))
         if name == "itertools.starmap":
-            return IterObj([self.call(a[0], list(self.iterate(x))) for x in self.iterate(a[1])])
+            fn, src = a[0], self.iter_of(a[1])
+            return GenIter((self.call(fn, list(self.iterate(x))) for x in src), "starmap")
         if name == "itertools.zip_longest":
             cols = [list(self.iterate(x)) for x in a]
             n = max((len(c) for c in cols), default=0)
@@ -1382,13 +1894,45 @@ class Interp:
             return Partial(a[0], tuple(a[1:]), tuple(kw.items()))
         if name == "operator.itemgetter" and len(a) == 1:
             return Partial(PyMethod(self, "getitem_swapped"), (a[0],))
-        if name == "operator.attrgetter" and len(a) == 1 and isinstance(a[0], str) and "." not in a[0]:
+        if name == "operator.itemgetter" and len(a) > 1:
+            return Partial(PyMethod(self, "getitems_swapped"), (tuple(a),))
+        if name == "operator.attrgetter" and len(a) == 1 and isinstance(a[0], str):
             return Partial(PyMethod(self, "getattr_swapped"), (a[0],))
+        if name == "operator.attrgetter" and len(a) > 1 and all(isinstance(x, str) for x in a):
+            return Partial(PyMethod(self, "getattrs_swapped"), (tuple(a),))
         if name in ("typing.TypeVar", "typing_extensions.TypeVar"):
             return Rec("typevar", __name__=a[0])
         if short in ("getLogger",) or name.startswith("logging."):
             return None
         raise Und(f"call of {name}() (not modelled)")
+
+    def operator_fn(self, op: str, a: list):
+        """operator.<op>(*a): the operator it names, with the same three-valued discipline as the operator itself."""
+        cmp = {"is": ast.Is, "is_not": ast.IsNot, "eq": ast.Eq, "ne": ast.NotEq, "lt": ast.Lt, "le": ast.LtE, "gt": ast.Gt, "ge": ast.GtE}
+        if op in cmp and len(a) == 2:
+            t = self.compare(cmp[op](), a[0], a[1])
+            if t is None:
+                raise Und(f"operator.{op} depends on a run-time value")
+            return t
+        if op == "contains" and len(a) == 2:
+            t = self.contains(a[0], a[1])
+            if t is None:
+                raise Und("operator.contains depends on a run-time value")
+            return t
+        if op in ("not", "truth") and len(a) == 1:
+            t = self.truth(a[0])
+            if t is None:
+                raise Und(f"operator.{op} of an opaque value")
+            return (not t) if op == "not" else t
+        if op == "getitem" and len(a) == 2:
+            return self.getitem(a[0], a[1])
+        arith = {"add": ast.Add, "concat": ast.Add, "sub": ast.Sub, "mul": ast.Mult, "mod": ast.Mod, "floordiv": ast.FloorDiv, "and": ast.BitAnd,
+                 "or": ast.BitOr, "xor": ast.BitXor, "lshift": ast.LShift, "rshift": ast.RShift}
+        if op in arith and len(a) == 2:
+            return self.binop(arith[op](), a[0], a[1], ast.Constant(value="operator." + op))
+        if op == "call" and a:
+            return self.call(a[0], a[1:])
+        raise Und(f"operator.{op}() (not modelled)")
 
     def signature_params(self, f, keep_self: bool = False) -> dict:
         skip = 0
@@ -1408,9 +1952,23 @@ class Interp:
     # ------------------------------------------------------------------------------------------ methods of builtin values
     def call_pymethod(self, o, name: str, a: list, kw: dict):  # noqa: C901, PLR0911, PLR0912, PLR0915
         if o is self:
+            def dotted(obj, path: str):
+                for part in path.split("."):
+                    obj = self.getattr_(obj, part)
+                return obj
             if name == "getitem_swapped":
                 return self.getitem(a[1], a[0])
-            return self.getattr_(a[1], a[0])
+            if name == "getitems_swapped":
+                return tuple(self.getitem(a[1], k) for k in a[0])
+            if name == "getattrs_swapped":
+                return tuple(dotted(a[1], k) for k in a[0])
+            if name == "methodcaller":
+                return self.call(self.getattr_(a[3], a[0]), list(a[1]), dict(a[2]))
+            return dotted(a[1], a[0])
+        if name.startswith("__") and name.endswith("__") and not isinstance(o, (ClsObj, RepoCls, Builtin)):
+            r = self.call_dunder(o, name, a)
+            if r is not MISSING:
+                return r
         if isinstance(o, (ClsObj, RepoCls, Builtin)):
             if name == "mro":
                 return [o, Builtin("object")] if isinstance(o, Builtin) else [*self.linearize(o), Builtin("object")]
@@ -1430,7 +1988,45 @@ class Interp:
                 return mkstr(parts)
             if name == "format":
                 return self.str_format(o, a, kw)
+            if name == "format_map" and len(a) == 1 and isinstance(a[0], dict):
+                return self.str_format(o, [], a[0])
+            if name == "replace" and len(a) == 2 and not kw:
+                return self.str_replace(o, a[0], a[1])
             raise Und(f"str.{name} on a symbolic string")
+        if isinstance(o, str) and name == "replace" and len(a) == 2 and not kw and not is_concrete(a[1]):
+            return self.str_replace(o, a[0], a[1])
+        if isinstance(o, str) and name == "format_map" and len(a) == 1 and isinstance(a[0], dict):
+            return self.str_format(o, [], a[0])
+        if isinstance(o, Obj) and o.fields is not None:
+            if name == "_asdict" and not a and not kw:
+                return {n: o.attrs[n] for n in o.fields}
+            if name == "_replace" and not a:
+                if any(k not in o.fields for k in kw):
+                    raise PyExc("ValueError", "Got unexpected field names")
+                new = Obj(o.cls, {**o.attrs, **kw}, o.label)
+                new.fields, new.match_args = o.fields, o.match_args
+                return new
+            if name in ("index", "count"):
+                return self.call_pymethod(self.tuple_of(o), name, a, kw)
+        if isinstance(o, Rec) and o.kind == "template" and name in ("substitute", "safe_substitute"):
+            return self.template_substitute(o.fields["template"], a, kw, safe=name == "safe_substitute")
+        if isinstance(o, Rec) and o.kind == "stringio":
+            if name == "write" and len(a) == 1:
+                if not is_strlike(a[0]):
+                    if isinstance(a[0], (Sym, App)):
+                        raise Und("StringIO.write of an opaque value")
+                    raise PyExc("TypeError", "string argument expected")
+                o.fields["parts"].append(a[0])
+                return None
+            if name == "writelines" and len(a) == 1:
+                for x in self.iterate(a[0]):
+                    self.call_pymethod(o, "write", [x], {})
+                return None
+            if name == "getvalue" and not a:
+                return mkstr(list(o.fields["parts"]))
+            if name == "close" and not a:
+                return None
+            raise Und(f"StringIO.{name}()")
         if isinstance(o, str):
             if all(is_concrete(x) for x in a) and not kw:
                 try:
@@ -1523,6 +2119,98 @@ class Interp:
                 except TypeError as e:
                     raise PyExc("TypeError", str(e)) from e
         raise Und(f"method {self.type_name(o)}.{name}()")
+
+    def str_replace(self, o, old, new):
+        """o.replace(old, new) for a literal `old`: exact when every symbolic part of o is an identifier (a field / class name) and
+        `old` contains a character no identifier has, so that it can only occur in the literal parts."""
+        if not isinstance(old, str) or not old or not is_strlike(new):
+            raise Und("str.replace with a symbolic pattern")
+        parts = o.parts if isinstance(o, SStr) else (o,)
+        if any(not isinstance(q, str) for q in parts):
+            if all(ch.isalnum() or ch == "_" for ch in old) or not all(isinstance(q, str) or (isinstance(q, Sym) and q.kind in ("name", "clsname")) for q in parts):
+                raise Und("str.replace on a symbolic string whose symbolic parts might contain the pattern")
+        out: list = []
+        for q in parts:
+            if isinstance(q, str):
+                pieces = q.split(old)
+                for i, piece in enumerate(pieces):
+                    if i:
+                        out.append(new)
+                    out.append(piece)
+            else:
+                out.append(q)
+        return mkstr(out)
+
+    def template_substitute(self, tpl, a: list, kw: dict, safe: bool):
+        if not isinstance(tpl, str):
+            raise Und("string.Template over a symbolic template")
+        mapping = dict(a[0]) if a and isinstance(a[0], dict) else {}
+        if a and not isinstance(a[0], dict):
+            raise Und("string.Template.substitute with an opaque mapping")
+        mapping.update(kw)
+        out: list = []
+        pos = 0
+        for m in re.finditer(r"\$(?:(\$)|([_a-zA-Z][_a-zA-Z0-9]*)|\{([_a-zA-Z][_a-zA-Z0-9]*)\}|())", tpl):
+            out.append(tpl[pos:m.start()])
+            pos = m.end()
+            if m.group(1) is not None:
+                out.append("$")
+                continue
+            key = m.group(2) or m.group(3)
+            if key is None:
+                if safe:
+                    out.append(m.group(0))
+                    continue
+                raise PyExc("ValueError", "Invalid placeholder in string")
+            if key not in mapping:
+                if safe:
+                    out.append(m.group(0))
+                    continue
+                raise PyExc("KeyError", key)
+            out.append(to_text(mapping[key], "s"))
+        out.append(tpl[pos:])
+        return mkstr(out)
+
+    def call_dunder(self, o, name: str, a: list):
+        """`x.__getitem__(k)` and friends on builtin values are the operators they implement (bound special methods are what
+        map / filter / partial pipelines pass around instead of a lambda)."""
+        n = len(a)
+        if name == "__getitem__" and n == 1:
+            if isinstance(a[0], slice):
+                if isinstance(o, (list, tuple, str, range, bytes)):
+                    return o[a[0]]
+                raise Und(f"slice of {o!r}")
+            return self.getitem(o, a[0])
+        if name == "__contains__" and n == 1:
+            t = self.contains(o, a[0])
+            if t is None:
+                raise Und("a membership test depends on a run-time value")
+            return t
+        if name == "__len__" and n == 0:
+            return self.call_builtin("len", [o], {})
+        if name == "__iter__" and n == 0:
+            return self.call_builtin("iter", [o], {})
+        if name == "__next__" and n == 0:
+            return self.call_builtin("next", [o], {})
+        if name in ("__eq__", "__ne__") and n == 1:
+            t = self.veq(o, a[0])
+            if t is None:
+                raise Und("an equality test depends on a run-time value")
+            return t if name == "__eq__" else not t
+        if name == "__setitem__" and n == 2 and isinstance(o, (list, dict)):
+            try:
+                o[a[0]] = a[1]
+            except (IndexError, TypeError, KeyError) as e:
+                raise PyExc(type(e).__name__, str(e)) from e
+            return None
+        if name in ("__add__", "__mod__", "__mul__") and n == 1:
+            op = {"__add__": ast.Add(), "__mod__": ast.Mod(), "__mul__": ast.Mult()}[name]
+            return self.binop(op, o, a[0], ast.Constant(value=name))
+        if name == "__str__" and n == 0:
+            return to_text(o, "s")
+        if name == "__repr__" and n == 0:
+            return to_text(o, "r")
+        return MISSING
 
     def str_format(self, fmt, a: list, kw: dict):
         if not isinstance(fmt, str):
@@ -1685,6 +2373,9 @@ class Interp:
             for al in s.names:
                 fr.locals[al.asname or al.name] = Ext(f"{s.module}.{al.name}")
             return
+        if isinstance(s, ast.With):
+            self.with_(list(s.items), s.body, fr)
+            return
         if isinstance(s, (ast.Global, ast.Nonlocal)):
             raise Und("global / nonlocal rebinding")
         if isinstance(s, ast.Match):
@@ -1723,12 +2414,18 @@ class Interp:
             cls = self.ev(p.cls, fr)
             if not self.is_instance(subj, cls):
                 return False
+            pos_attrs: list = []
             if p.patterns:
                 if len(p.patterns) == 1 and isinstance(cls, Builtin) and cls.name in ("str", "int", "float", "bool", "bytes", "list", "tuple", "dict", "set", "frozenset"):
                     return self.match_pattern(p.patterns[0], subj, fr)
-                raise Und("class pattern with positional sub-patterns")
+                ma = getattr(subj, "match_args", None) if isinstance(subj, Obj) else None
+                if ma is None:
+                    raise Und("class pattern with positional sub-patterns")
+                if len(p.patterns) > len(ma):
+                    raise PyExc("TypeError", f"{cls!r}() accepts {len(ma)} positional sub-patterns ({len(p.patterns)} given)")
+                pos_attrs = list(ma[:len(p.patterns)])
             res = True
-            for k, q in zip(p.kwd_attrs, p.kwd_patterns):
+            for k, q in zip([*pos_attrs, *p.kwd_attrs], [*p.patterns, *p.kwd_patterns]):
                 try:
                     v = self.getattr_(subj, k)
                 except PyExc as e:
@@ -1742,6 +2439,8 @@ class Interp:
                     res = None
             return res
         if isinstance(p, ast.MatchSequence):
+            if isinstance(subj, Obj) and self.tuple_of(subj) is not None:
+                subj = self.tuple_of(subj)
             if not isinstance(subj, (list, tuple)):
                 if self.type_name(subj) is None:
                     raise Und(f"sequence pattern against the opaque value {subj!r}")
@@ -1768,6 +2467,26 @@ class Interp:
                     res = None
             return res
         raise Und(f"pattern `{norm(p)[:60]}`")
+
+    def with_(self, items: list, body: list, fr: Frame) -> None:
+        """`with contextlib.suppress(E, ..):` / `with contextlib.nullcontext(..):` - the only context managers the evaluated fragment
+        may use; `with a, b:` is `with a:` around `with b:`."""
+        if not items:
+            self.block(body, fr)
+            return
+        cm = self.ev(items[0].context_expr, fr)
+        if not (isinstance(cm, Rec) and cm.kind in ("suppress", "nullcontext")):
+            raise Und(f"context manager `{norm(items[0].context_expr)[:60]}`")
+        if items[0].optional_vars is not None:
+            self.assign(items[0].optional_vars, cm.fields["value"] if cm.kind == "nullcontext" else cm, fr)
+        if cm.kind == "nullcontext":
+            self.with_(items[1:], body, fr)
+            return
+        try:
+            self.with_(items[1:], body, fr)
+        except PyExc as e:
+            if not any(self.exc_matches(e.kind, n) for n in cm.fields["kinds"]):
+                raise
 
     def try_(self, s: ast.Try, fr: Frame) -> None:
         try:
@@ -1924,7 +2643,8 @@ class Interp:
             return self.printf(l, r)
         if isinstance(l, (Sym, App)) or isinstance(r, (Sym, App)):
             return App(Sym("op", type(op).__name__), (_freeze(l), _freeze(r)))
-        if isinstance(op, ast.Add) and (is_strlike(l) or is_strlike(r) or isinstance(l, (list, tuple)) or isinstance(r, (list, tuple))):
+        if isinstance(op, ast.Add) and (is_strlike(l) or is_strlike(r) or isinstance(l, (list, tuple)) or isinstance(r, (list, tuple))) \
+                and all(x is None or isinstance(x, (list, tuple, dict, set, frozenset, IterObj, GenIter)) or is_strlike(x) or is_concrete(x) for x in (l, r)):
             raise PyExc("TypeError", f"unsupported operand types for +: {self.type_name(l)} and {self.type_name(r)}")
         raise Und(f"operator in `{norm(node)[:60]}`")
 
@@ -1979,24 +2699,32 @@ class Interp:
             parts.append(t)
         return mkstr(parts)
 
-    def comprehension(self, node, fr: Frame, emit) -> None:
+    def comp_frames(self, node, fr: Frame):
+        """Python generator over the frames in which the element of a comprehension / generator expression is evaluated.  The
+        outermost iterable is evaluated now (as CPython does when the comprehension object is created), everything else when
+        the frames are consumed."""
         gens = node.generators
+        if any(g.is_async for g in gens):
+            raise Und("async comprehension")
         inner = Frame(fr.func, fr.locals.new_child())
         inner.exc = fr.exc
         inner.yields = fr.yields
+        first = self.iter_of(self.ev(gens[0].iter, fr))
 
-        def rec(i: int) -> None:
+        def rec(i: int):
             if i == len(gens):
-                emit(inner)
+                yield inner
                 return
             g = gens[i]
-            if g.is_async:
-                raise Und("async comprehension")
-            for v in self.iterate(self.ev(g.iter, inner)):
+            for v in (first if i == 0 else self.iterate(self.ev(g.iter, inner))):
                 self.assign(g.target, v, inner)
                 if all(self.cond(c, inner) for c in g.ifs):
-                    rec(i + 1)
-        rec(0)
+                    yield from rec(i + 1)
+        return rec(0)
+
+    def comprehension(self, node, fr: Frame, emit) -> None:
+        for inner in self.comp_frames(node, fr):
+            emit(inner)
 
     def call_args(self, e: ast.Call, fr: Frame):
         args: list = []
@@ -2105,7 +2833,10 @@ class Interp:
                     except TypeError as ex:
                         raise PyExc("TypeError", str(ex)) from ex
             return d
-        if isinstance(e, (ast.ListComp, ast.GeneratorExp, ast.SetComp)):
+        if isinstance(e, ast.GeneratorExp):
+            frames = self.comp_frames(e, fr)
+            return GenIter((self.ev(e.elt, f2) for f2 in frames), "generator")
+        if isinstance(e, (ast.ListComp, ast.SetComp)):
             res: list = []
             self.comprehension(e, fr, lambda f2: res.append(self.ev(e.elt, f2)))
             return set(res) if isinstance(e, ast.SetComp) else res
@@ -2135,13 +2866,15 @@ class Interp:
         raise Und(f"expression `{norm(e)[:60]}`")
 
     def getitem(self, c, k):
+        if isinstance(c, Obj) and self.tuple_of(c) is not None:
+            c = self.tuple_of(c)
         if isinstance(c, (list, tuple, str, range, bytes)):
-            if isinstance(k, bool) or not isinstance(k, int):
+            if not isinstance(k, int):        # bool is an int: seq[True] is seq[1]
                 if isinstance(k, (Sym, App, SStr)):
                     raise Und(f"index {k!r} into a sequence")
                 raise PyExc("TypeError", "indices must be integers")
             try:
-                return c[k]
+                return c[int(k)]
             except IndexError as e:
                 raise PyExc("IndexError", f"index {k} out of range (length {len(c)})") from e
         if isinstance(c, dict):
@@ -2214,6 +2947,7 @@ class Defn:
     kwonly: frozenset = frozenset()
     custom_init: bool = False
     groups: list = field(default_factory=list)
+    inherited: bool = False      # the fix_pack_ / fix_unpack_ hooks are defined on a base class of the definition, not on the class itself
 
     def __post_init__(self) -> None:
         i = 0
@@ -2234,6 +2968,8 @@ class Defn:
         for label, s in (("fix_pack_", self.pack), ("fix_unpack_", self.unpack), ("constructor defaults", self.defaults), ("keyword-only", self.kwonly)):
             if s:
                 out += f", {label} on {{{', '.join(f'n{i}' for i in sorted(s))}}}"
+        if self.inherited and (self.pack or self.unpack):
+            out += " (the hooks are inherited from a base class of the definition)"
         return out
 
 
@@ -2268,6 +3004,7 @@ def definitions(shapes) -> list[Defn]:
             d.pack, d.unpack = _pattern(pp, d.n), _pattern(up, d.n)
             if v and d.n:
                 d.defaults = frozenset(range(max(0, d.n - v), d.n)) if (si + v) % 3 else frozenset(range(d.n))
+            d.inherited = v == 2
             out.append(d)
             if not d.n:
                 break
@@ -2298,16 +3035,22 @@ class Scenario:
     def make_class(self, d: Defn, label: str = "D") -> ClsObj:
         attrs: dict = {"names": d.names, "format_list": self.formats(d), "__name__": Sym("clsname", label, "str"),
                        "__module__": Sym("modname", label, "str")}
+        bases = [self.vp]
+        hooks = attrs
+        if d.inherited and (d.pack or d.unpack):
+            # a payload class deriving from a class that carries the per-field rules: attribute lookup finds them, the class __dict__ does not
+            hooks = {"__name__": Sym("clsname", label + "Base", "str"), "__module__": Sym("modname", label, "str")}
+            bases = [ClsObj(label + "Base", [self.vp], hooks)]
         for i in d.pack:
-            attrs[mkstr(["fix_pack_", N(i)])] = HookDef("fix_pack_", i)
+            hooks[mkstr(["fix_pack_", N(i)])] = HookDef("fix_pack_", i)
         for i in d.unpack:
-            attrs[mkstr(["fix_unpack_", N(i)])] = HookDef("fix_unpack_", i)
+            hooks[mkstr(["fix_unpack_", N(i)])] = HookDef("fix_unpack_", i)
         if d.custom_init or d.defaults or d.kwonly:
             params = [("self", EMPTY, "pos")]
             params += [(N(i), Sym("default", i) if i in d.defaults else EMPTY, "pos") for i in range(d.n) if i not in d.kwonly]
             params += [(N(i), Sym("default", i) if i in d.defaults else EMPTY, "kwonly") for i in range(d.n) if i in d.kwonly]
             attrs["__init__"] = function_record("__init__", params)
-        return ClsObj(label, [self.vp], attrs)
+        return ClsObj(label, bases, attrs)
 
     def instance(self, cls: ClsObj, d: Defn, filled: bool = True) -> Obj:
         return Obj(cls, {N(i): Sym("field", i) for i in range(d.n)} if filled else {}, "payload")
@@ -2714,6 +3457,7 @@ def vp_compile_definitions() -> list[Defn]:
                     d.kwonly = frozenset({d.n - 1})
             elif si % 3 == 0:
                 d.custom_init = True
+            d.inherited = si % 4 == 1
             out.append(d)
     return out
 
@@ -2882,15 +3626,21 @@ class DataclassWorld(Scenario):
         self.anns = [a for _, a, exp in _annotations(self) if not isinstance(exp, PyExc)]
         self.counter = 0
 
-    def dataclass(self, label: str, n_own: int, parent: ClsObj | None = None, classvar: bool = True) -> ClsObj:
+    def dataclass(self, label: str, n_own: int, parent: ClsObj | None = None, classvar: bool = True, kw_only: tuple = (),
+                  no_init: tuple = ()) -> ClsObj:
+        """kw_only / no_init: positions (among the own fields) of fields declared field(kw_only=True) / field(init=False).  The
+        dataclass-generated __init__ (what @dataclass installs before the first conversion) takes the init fields, keyword-only
+        ones after all others: its parameter order is NOT the definition order as soon as a keyword-only field is not last."""
         fields = list(parent.meta["fields"]) if parent else []
         hints = dict(parent.meta["hints"]) if parent else {}
         dcf = dict(parent.attrs["__dataclass_fields__"]) if parent else {}
-        for _ in range(n_own):
+        missing = Ext("dataclasses.MISSING")
+        for j in range(n_own):
             i = self.counter
             self.counter += 1
             ann = self.anns[i % len(self.anns)]
-            f = Rec("field", name=N(i), type=ann, default=Ext("dataclasses.MISSING"), kind="field")
+            f = Rec("field", name=N(i), type=ann, default=missing, default_factory=missing, kind="field", init=j not in no_init,
+                    kw_only=j in kw_only, repr=True, compare=True, hash=None, metadata={})
             fields.append(f)
             hints[N(i)] = ann
             dcf[N(i)] = f
@@ -2900,13 +3650,21 @@ class DataclassWorld(Scenario):
             pseudo = Rec("field", name=N(i), type=Rec("classvar"), default=Ext("dataclasses.MISSING"), kind="classvar")
             hints[N(i)] = Rec("classvar")
             dcf[N(i)] = pseudo
-        return ClsObj(label, [parent or self.base], {"__dataclass_fields__": dcf, "__module__": Sym("modname", label, "str"),
-                                                     "__name__": Sym("clsname", label, "str")}, {"fields": fields, "hints": hints})
+        attrs = {"__dataclass_fields__": dcf, "__module__": Sym("modname", label, "str"), "__name__": Sym("clsname", label, "str")}
+        # the receiver parameter has a name that is no field name (dataclasses renames it when a field is called `self`)
+        init_fields = [f.fields for f in fields if f.fields.get("init", True)]
+        attrs["__init__"] = function_record("__init__", [(N(-1), EMPTY, "pos")]
+                                            + [(f["name"], EMPTY, "pos") for f in init_fields if not f.get("kw_only")]
+                                            + [(f["name"], EMPTY, "kwonly") for f in init_fields if f.get("kw_only")])
+        return ClsObj(label, [parent or self.base], attrs, {"fields": fields, "hints": hints})
 
     def check_converted(self, cls: ClsObj, what: str):
         names = [f.fields["name"] for f in cls.meta["fields"]]
         fmts = [_spec_type_map(self, f.fields["type"]) for f in cls.meta["fields"]]
         got_n, got_f = cls.attrs.get("names"), cls.attrs.get("format_list")
+        for k, v in (("names", got_n), ("format_list", got_f)):
+            if v is not None and not isinstance(v, (list, tuple)):
+                return f"{what}: {k} = {v!r}, not a list"
         if got_n is None or _freeze(list(got_n)) != _freeze(names):
             return f"{what}: names = {got_n if got_n is not None else self.it.getattr_(cls, 'names', None)!r}, the dataclass fields are {names!r}"
         if got_f is None or _freeze(list(got_f)) != _freeze(fmts):
@@ -2936,7 +3694,40 @@ def _flat_targets(s) -> list:
     return out
 
 
-def _literal_loop_keys(call: ast.Call, name: str):
+def _record_field_names(ctx: Ctx, fi: FuncInfo, e: ast.AST):
+    """Field names of the NamedTuple / dataclass helper record an expression `X._asdict()` / `dataclasses.asdict(X)` / `vars(X)` /
+    `X.__dict__` spreads into a mapping, when the class of X is known; else None."""
+    x = None
+    if isinstance(e, ast.Call) and isinstance(e.func, ast.Attribute) and e.func.attr == "_asdict" and not e.args:
+        x = e.func.value
+    elif isinstance(e, ast.Call) and (chain(e.func) or "").split(".")[-1] in ("asdict", "vars") and len(e.args) == 1:
+        x = e.args[0]
+    elif isinstance(e, ast.Attribute) and e.attr == "__dict__":
+        x = e.value
+    if x is None:
+        return None
+    ci = _instance_class(ctx, fi, x)
+    if ci is None or ci.bases or "__init__" in ci.methods or "__post_init__" in ci.methods or "__slots__" in ci.attrs:
+        return None
+    is_dc = any(((chain(d.func) if isinstance(d, ast.Call) else chain(d)) or "").split(".")[-1] == "dataclass" for d in ci.node.decorator_list)
+    is_nt = [b.rsplit(".", 1)[-1] for b in ci.base_names] == ["NamedTuple"]
+    if not (is_dc or is_nt) or (is_nt and not (isinstance(e, ast.Call) and isinstance(e.func, ast.Attribute))):
+        return None
+    return [st.target.id for st in ci.node.body if isinstance(st, ast.AnnAssign) and isinstance(st.target, ast.Name) and "ClassVar" not in norm(st.annotation)]
+
+
+def _min_len(ctx, fi, e: ast.AST) -> int:
+    """A lower bound of the number of items iterating e yields: tuple / list displays, instances of a NamedTuple helper class."""
+    if isinstance(e, (ast.Tuple, ast.List)):
+        return 0 if any(isinstance(x, ast.Starred) for x in e.elts) else len(e.elts)
+    if ctx is not None:
+        ci = _instance_class(ctx, fi, e)
+        if ci is not None and not ci.bases and [b.rsplit(".", 1)[-1] for b in ci.base_names] == ["NamedTuple"] and "__iter__" not in ci.methods:
+            return len([st for st in ci.node.body if isinstance(st, ast.AnnAssign) and isinstance(st.target, ast.Name) and "ClassVar" not in norm(st.annotation)])
+    return 0
+
+
+def _literal_loop_keys(call: ast.Call, name: str, ctx: Ctx | None = None, fi: FuncInfo | None = None):
     """`for <name>, .. in (("a", ..), ("b", ..)):` / `.. in {"a": .., "b": ..}.items()` / `zip(("a", "b"), ..)` directly around
     `call`: (the For statement, the constants <name> takes) when every iteration runs the call, else None."""
     from ..model import enclosing_stmt, parent
@@ -2963,8 +3754,13 @@ def _literal_loop_keys(call: ast.Call, name: str):
         rows = list(it.func.value.keys)
     elif isinstance(it, ast.Dict) and idx is None:
         rows = list(it.keys)
+    elif ctx is not None and isinstance(it, ast.Call) and isinstance(it.func, ast.Attribute) and it.func.attr == "items" and not it.args and idx == 0:
+        names = _record_field_names(ctx, fi, it.func.value)
+        if names:
+            return loop, names
     elif isinstance(it, ast.Call) and chain(it.func) == "zip" and idx is not None and len(it.args) > idx and isinstance(it.args[idx], (ast.Tuple, ast.List)) \
-            and all(isinstance(a, (ast.Tuple, ast.List)) and len(a.elts) == len(it.args[idx].elts) for a in it.args):
+            and not any(isinstance(e, ast.Starred) for a in it.args if isinstance(a, (ast.Tuple, ast.List)) for e in a.elts) \
+            and all(_min_len(ctx, fi, a) >= len(it.args[idx].elts) for a in it.args):
         rows = list(it.args[idx].elts)
     if not rows or any(r is None for r in rows):
         return None
@@ -2982,40 +3778,113 @@ def _effect_sites(ctx: Ctx, fi: FuncInfo, pname: str, effect: str, seen: tuple =
     if pname not in fi.params() or local_defs(fi, pname):
         return []
     sites: list = []
+    unwrapped = [(c, *_unwrap_partial(fi, c)) for c in calls(fi)]
     if effect == "vp_compile":
-        sites += [c for c in calls(fi) if (chain(c.func) or "").split(".")[-1] == "vp_compile" and c.args and chain(c.args[0]) == pname]
+        sites += [c for c, f, args, _ in unwrapped if (chain(f) or "").split(".")[-1] == "vp_compile" and args and chain(args[0]) == pname]
     else:
         sites += [s for s in walk_no_nested(fi.node) if isinstance(s, (ast.Assign, ast.AnnAssign)) and getattr(s, "value", None) is not None
                   and any(chain(t) == f"{pname}.{effect}" for t in _flat_targets(s))]
-        for c in calls(fi, "setattr"):
-            if len(c.args) == 3 and chain(c.args[0]) == pname:
-                if const_value(c.args[1]) == effect:
+        for c, f, args, kws_ in unwrapped:
+            if chain(f) in ("setattr", "builtins.setattr", "type.__setattr__", "object.__setattr__") and len(args) == 3 and not kws_ and chain(args[0]) == pname:
+                if const_value(args[1]) == effect:
                     sites.append(c)
-                elif isinstance(c.args[1], ast.Name):
-                    lk = _literal_loop_keys(c, c.args[1].id)
+                elif isinstance(args[1], ast.Name):
+                    lk = _literal_loop_keys(c, args[1].id, ctx, fi)
                     if lk is not None and effect in lk[1]:
                         sites.append(lk[0])
-    for c in calls(fi):
-        if any(c is x for x in sites) or any(isinstance(a, ast.Starred) for a in c.args) or any(k.arg is None for k in c.keywords):
+    for c, f, args, kws_ in unwrapped:
+        if any(c is x for x in sites) or any(isinstance(a, ast.Starred) for a in args) or any(k.arg is None for k in kws_):
             continue
-        pos = [i for i, a in enumerate(c.args) if chain(a) == pname]
-        kws = [k.arg for k in c.keywords if chain(k.value) == pname]
+        pos = [i for i, a in enumerate(args) if chain(a) == pname]
+        kws = [k.arg for k in kws_ if chain(k.value) == pname]
         if not pos and not kws:
             continue
-        targets = ctx.repo.resolve_call(fi, c)
+        eff = c if f is c.func and args is c.args else ast.copy_location(ast.Call(func=f, args=list(args), keywords=list(kws_)), c)
+        targets = _call_targets(ctx, fi, eff)
         if not targets or len(seen) > 3:
             continue
 
-        def has(t: FuncInfo) -> bool:
-            if t.cls is not None or t.node is fi.node or any(t.node is x for x in seen) or t.is_async or t.decorators:
+        def has(tb) -> bool:
+            t, bound = tb
+            if t.node is fi.node or any(t.node is x for x in seen) or t.is_async \
+                    or any(d not in ("staticmethod", "classmethod") for d in t.decorator_names()):
                 return False
             a = t.node.args
-            plain = [x.arg for x in a.posonlyargs + a.args]
+            plain = [x.arg for x in a.posonlyargs + a.args][1 if bound else 0:]
             names = [plain[i] for i in pos if i < len(plain)] + [k for k in kws if k in plain or k in [x.arg for x in a.kwonlyargs]]
             return any(_on_every_path(ctx, t, _effect_sites(ctx, t, n, effect, (*seen, fi.node))) for n in names)
-        if all(has(t) for t in targets):
+        if all(has(tb) for tb in targets):
             sites.append(c)
     return sites
+
+
+def _unwrap_partial(fi: FuncInfo, c: ast.Call):
+    """(callee expression, positional arguments, keywords) of a call after unfolding functools.partial: `partial(f, a)(b)` and
+    `g = partial(f, a)` ... `g(b)` (g assigned once in this function) are the call f(a, b)."""
+    from ..match import single_def
+    f, args, kws = c.func, list(c.args), list(c.keywords)
+    for _ in range(4):
+        e = f
+        if isinstance(e, ast.Name) and not isinstance(getattr(e, "ctx", None), ast.Store):
+            sd = single_def(fi, e.id)
+            if sd is not None and sd[1] is None:
+                e = sd[0]
+        if isinstance(e, ast.Call) and (chain(e.func) or "").split(".")[-1] == "partial" and e.args \
+                and not any(isinstance(a, ast.Starred) for a in e.args) and not any(k.arg is None for k in e.keywords):
+            f, args, kws = e.args[0], [*e.args[1:], *args], [*e.keywords, *kws]
+            continue
+        break
+    return f, args, kws
+
+
+def _instance_class(ctx: Ctx, fi: FuncInfo, e: ast.AST):
+    """The library class of which expression e certainly is an instance: `Cls(..)`, a local assigned once to that, a module
+    constant assigned to that; else None."""
+    from ..match import single_def
+    for _ in range(3):
+        if isinstance(e, ast.Name):
+            sd = single_def(fi, e.id)
+            if sd is not None and sd[1] is None:
+                e = sd[0]
+                continue
+            r = ctx.repo.resolve_name(fi.module, e.id)
+            if isinstance(r, tuple) and r[0] == "const" and isinstance(r[2], ast.Call):
+                return ctx.repo.resolve_class_expr(r[1], r[2].func)
+            return None
+        break
+    if isinstance(e, ast.Call):
+        return ctx.repo.resolve_class_expr(fi.module, e.func)
+    return None
+
+
+def _call_targets(ctx: Ctx, fi: FuncInfo, c: ast.Call) -> list:
+    """[(FuncInfo, bound)] - the functions a call may run; bound = the first parameter is the receiver, not an argument.  Besides what
+    the engine resolves: calling an instance of a small callable class runs its __call__, calling a class runs its __init__, and
+    `<instance expression>.method(..)` runs that method."""
+    f = c.func
+    out: list = []
+    ci = _instance_class(ctx, fi, f)
+    if ci is not None:
+        m = ci.lookup("__call__")
+        return [(m, True)] if m else []
+    if isinstance(f, ast.Attribute) and not (isinstance(f.value, ast.Name) and f.value.id in ("self", "cls")):
+        ci = _instance_class(ctx, fi, f.value)
+        if ci is not None:
+            m = ci.lookup(f.attr)
+            return [(m, "staticmethod" not in m.decorator_names())] if m else []
+    for t in ctx.repo.resolve_call(fi, c):
+        if t.cls is None:
+            out.append((t, False))
+        elif isinstance(f, ast.Name) or "staticmethod" not in t.decorator_names():
+            # Cls(..) -> __init__(self, ..);  self.m(..) / Cls.m(..) for class and instance methods: the receiver is implicit, except
+            # for the unbound spelling Cls.m(obj, ..) of an instance method, which the engine does not tell apart: not followed
+            if isinstance(f, ast.Attribute) and not (isinstance(f.value, ast.Name) and f.value.id in ("self", "cls")) \
+                    and "classmethod" not in t.decorator_names():
+                return []
+            out.append((t, True))
+        else:
+            out.append((t, False))
+    return out
 
 
 def _on_every_path(ctx: Ctx, fi: FuncInfo, sites: list) -> bool:
@@ -3085,7 +3954,18 @@ def rule_type_map(ctx: Ctx) -> None:  # noqa: C901, PLR0912, PLR0915
         msg = dw.check_converted(c, "dataclass deriving from an already converted dataclass payload")
         if msg:
             return msg
-        return dw.check_converted(b, "parent dataclass after its subclass was converted")
+        msg = dw.check_converted(b, "parent dataclass after its subclass was converted")
+        if msg:
+            return msg
+        k = dw.dataclass("K", 3, classvar=False, kw_only=(1,))
+        it.call(conv, [k])
+        msg = dw.check_converted(k, "dataclass whose second of three fields is keyword-only (its generated __init__ takes that field last; the wire order of "
+                                    "the plain definition is the definition order)")
+        if msg:
+            return msg
+        i = dw.dataclass("I", 3, classvar=False, no_init=(2,))
+        it.call(conv, [i])
+        return dw.check_converted(i, "dataclass with a field(init=False) field (not a constructor parameter, still a field of the definition)")
 
     def guarded():
         try:
@@ -3183,6 +4063,11 @@ WITNESSES = [
      "old": "types.MethodType(local_scope[\"from_unpack_list\"], vp_definition))", "new": "staticmethod(local_scope[\"from_unpack_list\"]))"},
     {"name": "int maps to unregistered format", "file": PD, "rule": "type-map",
      "old": "    if t is int:\n        return \"q\"", "new": "    if t is int:\n        return \"i\""},
+    {"name": "dataclass names in constructor-parameter order (keyword-only fields move last, init=False fields drop out)", "rule": "type-map",
+     "edits": [{"file": PD, "old": "import dataclasses\n", "new": "import dataclasses\nimport inspect\n"},
+               {"file": PD, "old": "    dataclass_type.names = [field.name for field in dt_fields]  # type: ignore[attr-defined]\n",
+                "new": "    dataclass_type.names = [name for name in inspect.signature(dataclass_type.__init__).parameters\n"
+                       "                            if name in {field.name for field in dt_fields}]\n"}]},
     {"name": "dataclass formats from sorted hints", "file": PD, "rule": "type-map",
      "old": "    dataclass_type.format_list = [type_map(type_hints[field.name]) for field in  # type: ignore[attr-defined]\n                                  dt_fields]",
      "new": "    dataclass_type.format_list = [type_map(type_hints[name]) for name in  # type: ignore[attr-defined]\n                                  sorted(type_hints)]"},
